@@ -1,5 +1,6 @@
 import SameVerif
 import SameVerif.Spec.OracleC03
+import SameVerif.Spec.OracleC06
 import Driver.Util
 /-
   samemodel: the executable side of the correspondence check.
@@ -39,6 +40,27 @@ def showAccessors (h : Header) : String :=
   let iss := showP (fun (p : Nat × Nat × Nat) => s!"{p.1}:{p.2.1}:{p.2.2}") h.issueDaytimeFields
   s!"org={showP hexOf h.originatorStr} evt={showP hexOf h.eventStr} locs={locs} dur={dur} iss={iss} call={showP hexOf h.callsign}"
 
+/-- the answer to `hdr <bytes>`: `MessageHeader::new` and every accessor -/
+def hdrOut (b : List Byte) : String :=
+  if !validUtf8 b then "not-utf8"
+  else match Header.new b with
+    | .ok h => s!"{showHeader h} {showAccessors h}"
+    | .error e => s!"err:{errName e}"
+
+def nbhdAlphabet : List (List Byte) :=
+  (List.range 128).map (fun c => [UInt8.ofNat c]) ++ [[0xC3, 0xA9], [0xE2, 0x82, 0xAC], [0xF0, 0x9F, 0x98, 0x80]]
+
+/-- the complete 1-edit neighbourhood at one position, in the harness's order -/
+def variants (seed : List Byte) (pos : Nat) : List (List Byte) :=
+  let pre := seed.take pos
+  let del := if pos < seed.length then
+      [pre ++ seed.drop (pos + 1)] ++ nbhdAlphabet.map (fun a => pre ++ a ++ seed.drop (pos + 1))
+    else []
+  del ++ nbhdAlphabet.map (fun a => pre ++ a ++ seed.drop pos)
+
+def hdrnbhd (seed : List Byte) (pos : Nat) : UInt64 :=
+  (variants seed pos).foldl (fun h v => fnvByte (fnvStr h (hdrOut v)) 10) fnvInit
+
 def vote3hash (lo hi : Nat) : UInt64 := Id.run do
   let mut h := fnvInit
   for i in [lo:hi] do
@@ -75,6 +97,37 @@ def parseAns (ws : List String) : Ans :=
     | _, _, _, _ => .other (" ".intercalate ws)
   | [w] => if w.startsWith "err:" then .err (w.drop 4).toString else .other w
   | ws => .other (" ".intercalate ws)
+
+def kvs (s key : String) : Option String :=
+  if s.startsWith (key ++ "=") then some (s.drop (key.length + 1)).toString else none
+
+def parseHdrAns (ws : List String) : Spec.HdrVerdictIn :=
+  match ws with
+  | ["err:NotAscii"] => .errNotAscii
+  | ["err:Malformed"] => .errMalformed
+  | ["som", t, o, p, v, org, evt, locs, dur, iss, call] =>
+    let r : Option Spec.HdrAns := do
+      let t ← unhex t
+      let o ← kv o "off"
+      let p ← kv p "par"
+      let v ← kv v "vot"
+      let org ← (kvs org "org").bind unhex
+      let evt ← (kvs evt "evt").bind unhex
+      let locs ← (kvs locs "locs").bind (fun l => (l.splitOn "/").mapM unhex)
+      let dur ← (kvs dur "dur").bind (fun d => match (d.splitOn ":").mapM String.toNat? with
+        | some [a, b] => some (a, b) | _ => none)
+      let iss ← (kvs iss "iss").bind (fun d => match (d.splitOn ":").mapM String.toNat? with
+        | some [a, b, c] => some (a, b, c) | _ => none)
+      let call ← (kvs call "call").bind unhex
+      pure { text := t, off := o, par := p, vot := v, org, evt, locs, dur, iss, call }
+    match r with
+    | some a => .ok a
+    | none => .errOther (" ".intercalate ws)
+  | ws => .errOther (" ".intercalate ws)
+
+def optVerdict : Option String → String
+  | none => "ok"
+  | some why => s!"FAIL {why}"
 
 def verdict (b : Bool) (why : String) : String := if b then "ok" else s!"FAIL {why}"
 
@@ -120,6 +173,34 @@ def handleSpec (name : String) (ins ans : List String) : String :=
       | .other s => s!"FAIL unparsable answer {s}"
       | _ => "ok"
     | _, _ => "bad-op"
+  | "spec.c06.hdr", [b] =>
+    match unhex b with
+    | some b => optVerdict (Spec.oracleHdr b (parseHdrAns ans))
+    | none => "bad-op"
+  | "spec.c06.reparse", first =>
+    -- the answer for the stored text must equal the answer for the original input
+    verdict (first == ans) "re-parsing the stored text gave a different header"
+  | "spec.c06.msg3", [b, e, c] =>
+    match unhex b, parseNats e, parseNats c with
+    | some b, some e, some c =>
+      -- dispatch rule of the byte-slice constructor
+      if !validUtf8 b then verdict (ans == ["err:NotAscii"]) "invalid UTF-8 must be NotAscii"
+      else if startsWith b litZCZC then
+        let expPar := fun (t : List Byte) => ((e.zip t).map (·.1)).sum
+        let expVot := fun (t : List Byte) => ((c.zip t).filter (fun p => p.1 ≥ 3)).length
+        match parseAns ans with
+        | .som t o p v =>
+          -- accessors are not part of this answer; judge text, offset and counters
+          match Spec.longestShapedPrefix b with
+          | some (t', f) => verdict (b.all (· < 128) && t == t' && o == f.plus && p == expPar t && v == expVot t) "byte-slice constructor: text/offset/counters"
+          | none => "FAIL accepted although no prefix has the header shape"
+        | .err k =>
+          if !b.all (· < 128) then verdict (k == "NotAscii") "non-ASCII must be NotAscii"
+          else verdict (k == "Malformed" && (Spec.longestShapedPrefix b).isNone) "rejected although a prefix has the header shape"
+        | _ => "FAIL ZCZC- prefix must dispatch to the header parser"
+      else if startsWith b litNN then verdict (ans == ["eom"]) "NN prefix must be EndOfMessage"
+      else verdict (ans == ["err:UnrecognizedPrefix"]) "other prefixes must be UnrecognizedPrefix"
+    | _, _, _ => "bad-op"
   | _, _ => "bad-op"
 
 def handleOp (args : List String) : String :=
@@ -159,15 +240,16 @@ def handleOp (args : List String) : String :=
     | _, _, _ => "bad-op"
   | ["msgstr", b] =>
     match unhex b with
-    | some b => showRes (Msg.tryFromString b)
+    | some b => if validUtf8 b then showRes (Msg.tryFromString b) else "not-utf8"
     | none => "bad-op"
   | ["hdr", b] =>
     match unhex b with
-    | some b =>
-      match Header.new b with
-      | .ok h => s!"{showHeader h} {showAccessors h}"
-      | .error e => s!"err:{errName e}"
+    | some b => hdrOut b
     | none => "bad-op"
+  | ["hdrnbhd", seed, pos] =>
+    match unhex seed, pos.toNat? with
+    | some seed, some pos => s!"{(hdrnbhd seed pos).toNat}"
+    | _, _ => "bad-op"
   | _ => "bad-op"
 
 def handle (args : List String) : String :=
